@@ -384,6 +384,11 @@ def check_case(ck, case, res, tally, streams, origin):
                      "roundrobin": res.get("roundrobin"),
                      "sticky": (res.get("sticky") or {}).get("out")} if nontrivial(case) and len(case["members"]) > 1 else None)
     replay = {"case": case, "origin": origin}
+    if case.get("dup"):
+        if not isinstance(res.get("range"), dict) and not isinstance(res.get("roundrobin"), dict):
+            streams.append((enc_kind0(case), ("k0", case, res.get("range"), res.get("roundrobin"))))
+        tally.n["duplicate-topic-subscription-cases(correspondence only)"] += 1
+        return
     # ---------------- range / round-robin
     for a in ("range", "roundrobin"):
         out = res.get(a)
@@ -499,6 +504,13 @@ def rnd_case(rng, max_m=12, max_t=8, max_p=12, claims=False):
             rng.shuffle(s)
         members.append([m, s])
     case = {"ppt": ppt, "members": members}
+    if not claims and rng.random() < 0.04:
+        # outside the property's quantifier (a subscription is a set): a topic listed twice.
+        # Used for the range / round-robin correspondence only (the models are faithful there:
+        # range then loses a partition, see Example c14_range_subs_nodup_needed)
+        m = rng.choice(members)
+        m[1].append(rng.choice(m[1]))
+        case["dup"] = True
     if claims:
         case["claims"] = rnd_claims(rng, case)
     return case
@@ -627,13 +639,17 @@ def run(ck: Check):
             hist["prev-nonempty" if st.get("prev") else "prev-empty"] += 1
     ck.extra["random_histogram"] = dict(hist)
     # the witness of c14_sticky_valid_full_refuted is what the real executor does on corpus case 0
+    # — as long as the finding reproduces (after a fix of /repo it no longer does)
     if corpus:
         w = next((rr for j, r in zip(jobs, res) for case, rr in zip(j, r) if case is corpus[0]), None)
         st = (w or {}).get("sticky") or {}
-        ck.obligation("witness:c14_sticky_valid_full_refuted-log==real-log",
-                      st.get("assigns") == [[1, 0, 1]] and st.get("reassigns") == [[0, 0, 1, 0, 0], [0, 1, 2, 0, 1]]
-                      and st.get("reverted") == 0 and bool(mon_valid(corpus[0], st.get("out") or [])),
-                      json.dumps(st)[:300])
+        if "out" in st and mon_valid(corpus[0], st["out"]):
+            ck.obligation("witness:c14_sticky_valid_full_refuted-log==real-log",
+                          st.get("assigns") == [[1, 0, 1]] and st.get("reassigns") == [[0, 0, 1, 0, 0], [0, 1, 2, 0, 1]]
+                          and st.get("reverted") == 0, json.dumps(st)[:300])
+        else:
+            ck.log("note: the known validity finding no longer reproduces on corpus/C14/stale_claimant.json")
+            ck.extra["known_finding_reproduces"] = False
     if have_runner:
         results = run_ocaml([s for s, _ in streams])
         settle(ck, tally, streams, results, "ocaml")
